@@ -893,7 +893,32 @@ func RuleIRecheck(c *core.Ctx) {
 						what = "insert through " + callee.Name()
 					}
 				}
-				if inserted == nil || !fresh(inserted) {
+				// a parameter of a function that takes the lock itself: fresh if some caller
+				// hands over a freshly allocated object
+				if inserted != nil && !fresh(inserted) && len(locks) > 0 {
+					for v := range originSet(p, inserted, 0) {
+						prm, ok := v.(*ssa.Parameter)
+						if !ok || prm.Parent() != fn {
+							continue
+						}
+						idx := paramIndex(prm)
+						if n := p.CG.Nodes[fn]; n != nil {
+							for _, e := range n.In {
+								if e.Site == nil || !p.InModule(e.Caller.Func) {
+									continue
+								}
+								args := e.Site.Common().Args
+								if idx < len(args) && fresh(args[idx]) {
+									inserted = prm
+									what += " (the object is allocated by the caller " + core.FuncName(e.Caller.Func) + ")"
+								}
+							}
+						}
+					}
+					if _, isParam := inserted.(*ssa.Parameter); !isParam {
+						return
+					}
+				} else if inserted == nil || !fresh(inserted) {
 					return
 				}
 				n++
